@@ -156,13 +156,13 @@ Qed.
 
 (* what the service holds right after a successful Assign *)
 Theorem assign_policy a s r ips a' out :
-  Inv a -> assign a s r ips = (a', ROk out) ->
+  assign a s r ips = (a', ROk out) ->
   exists p, out = ips /\
     get_alloc a' s = Some {| a_pool := p_name p; a_ips := ips; a_ports := r_ports r; a_key := r_key r |} /\
     In p (by_name (s_pools a')) /\ (forall x, In x ips -> in_pool p x = true) /\
     compatible p r = true /\ families_distinct ips.
 Proof.
-  intros HI H. apply assign_ok_inv in H. destruct H as [p [Hc [-> ->]]].
+  intros H. apply assign_ok_inv in H. destruct H as [p [Hc [-> ->]]].
   apply assign_check_spec in Hc. destruct Hc as (Hp & Hcomp & Hfam & _).
   apply pool_for_spec in Hp. destruct Hp as [Hin Hall]. destruct Hfam as [Hl Hd].
   exists p. split; [reflexivity|]. split.
@@ -449,4 +449,35 @@ Proof.
     split; [exact Ha|]. split; [exact Hc|]. split; [exact Hall|]. split; [exact Hfam|].
     right. split; [exact Hp|].
     intros q ips' Hq. apply classify_nothing_no_offer. exact (best_class_nothing a s r _ Hnone q Hq).
+Qed.
+
+(* the part of the specification [allocate_spec_sound] does not spell out: the
+   chosen pool offers the BEST class available among the candidates of its list
+   (Full before PrimaryOnly before SecondaryOnly), and an unpinned pool is taken
+   only when no pinned pool offers anything *)
+Theorem allocate_spec_best_class a s r pn ips :
+  names_unique (s_pools a) ->
+  allocate_spec a s r (Some (pn, ips)) = true ->
+  exists p, find_pool (s_pools a) pn = Some p /\ classify a s r p <> Nothing /\
+    let pinned := pinned_pools (s_pools a) r in
+    let unp := unpinned_pools (s_pools a) in
+    ((In p pinned /\ classify a s r p = best_class a s r pinned) \/
+     (In p unp /\ best_class a s r pinned = Nothing /\ classify a s r p = best_class a s r unp /\
+      forall q, In q unp -> key_lt (prio_key q) (prio_key p) = true -> classify a s r q <> classify a s r p)).
+Proof.
+  intros Hu. unfold allocate_spec. destruct (find_pool (s_pools a) pn) as [p|] eqn:Hf; [|discriminate].
+  rewrite andb_true_iff, orb_true_iff. intros [_ Hch].
+  pose proof (find_pool_spec _ _ _ Hf) as [Hin Hname].
+  exists p. split; [reflexivity|].
+  assert (Hsame : forall l, (forall q, In q l -> In q (by_name (s_pools a))) ->
+                            (exists q, In q l /\ p_name q = p_name p) -> In p l).
+  { intros l Hl [q [Hq Hn]]. assert (q = p) by (apply (names_unique_eq (s_pools a)); auto). subst. exact Hq. }
+  destruct Hch as [Hch|Hch].
+  - apply choice_ok_in_spec in Hch. destruct Hch as (Hex & Hbest & Hnn & _).
+    split; [exact Hnn|]. left. split; [|exact Hbest].
+    apply Hsame; [|exact Hex]. intros q Hq. apply pinned_pools_spec in Hq. tauto.
+  - apply andb_true_iff in Hch. destruct Hch as [Hnone Hch]. apply class_eqb_eq in Hnone.
+    apply choice_ok_in_spec in Hch. destruct Hch as (Hex & Hbest & Hnn & Hprio).
+    split; [exact Hnn|]. right. split; [|split; [exact Hnone|split; [exact Hbest|exact Hprio]]].
+    apply Hsame; [|exact Hex]. intros q Hq. apply unpinned_pools_spec in Hq. tauto.
 Qed.
